@@ -412,6 +412,27 @@ def wl_rule(ctx, rng, case_no):
             allowed |= {"-"}
         if any(c not in allowed for c in text):
             ctx.violation("rule-contains-foreign-characters", dict(wit, foreign=[c for c in text if c not in allowed][:5]))
+        else:
+            # "fill exactly the width": the line is RULE from edge to edge - blanks only next to the title (one on each
+            # side), inside it, and at most one cell where the pattern's last character did not fit whole
+            marks = set(tchars) | {"…"}
+            idx = [i for i, c in enumerate(text) if c in marks]
+            ctx.count("mon.rule_filled")
+            if idx:
+                lead = len(title) - len(title.lstrip())
+                trail = len(title) - len(title.rstrip())
+                left, right = text[:idx[0]], text[idx[-1] + 1:]
+                slack = max(cellref.char_width(c) for c in characters) - 1      # (room a wide pattern character cannot use)
+                import re as _re
+                # (a title cut inside one of its own runs of blanks ends - or begins - with that run)
+                slack += max([len(x) for x in _re.findall(r"\s+", title)] or [0])
+                too_blank = left.count(" ") > 2 + slack + lead or right.count(" ") > 2 + slack + trail
+            else:
+                slack = max(cellref.char_width(c) for c in characters) - 1
+                too_blank = text.count(" ") > 3 + 2 * slack + len(title)
+            if too_blank:
+                ctx.violation("rule-line-padded-with-blanks-instead-of-rule:" + ("ascii-only" if ascii_only else "utf8"),
+                              dict(wit, blanks=text.count(" ")))
         ctx.case_done(("rule", title, characters, align, W, ascii_only), bool(title.strip()) and W < 60, wit)
 
 
